@@ -287,3 +287,18 @@ def rand_cfg(rng, **over):
               mode=rng.choice([1, 1, 1, 2, 3]), nblk=rng.choice([1, 2, 5, 12, 13, 40]), lclock=1, tsfirst=rng.randrange(2), tz=rng.choice([0, 28800, -12600]))
     kw.update(over)
     return pktgen.Cfg(**kw)
+
+
+def tf_pair_scenario(rng, L, name, t0='RS16', t1='RSHELIOS'):
+    """two instances in one process on an ENABLE_TRANSFORM build: instance 0 keeps the identity transform, instance 1 is created
+    later with a non-identity pose; both are fed alternately. The transform belongs to the instance."""
+    s = Scn(name)
+    l0, l1 = L[t0], L[t1]
+    s.drv(0, l0, pktgen.Cfg(wait=0, dense=0, pktcb=0))
+    m0, m1 = MechStream(rng, l0), MechStream(rng, l1)
+    s.pkt(0, m0.msop())
+    tf = (rng.uniform(-5, 5), rng.uniform(-5, 5), rng.uniform(-2, 2), rng.uniform(-1, 1), rng.uniform(-1, 1), rng.uniform(-3, 3))
+    s.drv(1, l1, pktgen.Cfg(wait=0, dense=0, pktcb=0, tf=tf))
+    for k in range(3):
+        s.pkt(0, m0.msop()); s.pkt(1, m1.msop())
+    return s.text(residual=(0, 1))
